@@ -57,10 +57,15 @@ def audit_external(prog):
 def run_pack(pid, facts_path):
     ctx = Ctx(facts_path)
     rep = Report(pid)
+    try:
+        rep.set_canon(ctx.A)
+    except Exception:
+        pass
     import re
     for name, fn, only, drop in props.PROPS[pid]["rules"]:
         tmp = Report(pid)
         tmp.stats = rep.stats
+        tmp.canon = rep.canon
         try:
             fn(ctx, tmp)
         except AnchorMissing as e:
